@@ -249,7 +249,17 @@ def initiated_by_us(facts, fn):
         return True
     defs = [st for st in walk_no_defs(fn.node) if isinstance(st, ast.Assign) and any(is_self_attr(t, "closedByMe") for t in st.targets)]
     same = len(defs) == 1 and isinstance(defs[0].value, ast.UnaryOp) and isinstance(defs[0].value.op, ast.Not) and norm.text(defs[0].value.operand) == "isReply"
-    return same and ("truth", "isReply", None, False) in facts
+    if same and ("truth", "isReply", None, False) in facts:
+        return True
+    # a local bound to the same value in the same statement (`self.closedByMe = mine = not isReply`) or read from the attribute once (`mine = self.closedByMe`)
+    stores = {}
+    for st in walk_no_defs(fn.node):
+        if isinstance(st, ast.Name) and isinstance(st.ctx, ast.Store):
+            stores[st.id] = stores.get(st.id, 0) + 1
+    aliases = {t.id for d in defs for t in d.targets if isinstance(t, ast.Name)} if len(defs) == 1 else set()
+    aliases |= {st.targets[0].id for st in walk_no_defs(fn.node) if isinstance(st, ast.Assign) and len(st.targets) == 1 and isinstance(st.targets[0], ast.Name)
+                and is_self_attr(st.value, "closedByMe") and len(defs) == 1 and st.lineno > defs[0].lineno}
+    return any(stores.get(a) == 1 and ("truth", a, None, True) in facts for a in aliases)
 
 
 class _Subst(ast.NodeTransformer):
@@ -637,6 +647,68 @@ def rule_default_options(ctx, rule_id, table, why):
         fn, t = done[cname]
         got = t.env.get(f"self.{attr}", t.env["self"].attrs.get(attr, "<not set>"))
         ctx.ob(f"{cname} default {attr} = {want}", got is want or (got == want and type(got) is type(want)), f"default is {got!r}: {why}", fn.loc())
+
+
+def rule_option_setters(ctx, rule_id, table, why):
+    """An option handed to `setProtocolOptions` must become the factory's attribute of that name, whatever the other options currently are:
+    evaluated (sa.core.tiny) cell-wise over (option, value), the value being a fresh one and the CURRENT value of every other option (a comparison
+    against the wrong attribute hides exactly there).  Afterwards the attribute holds the value given and no other option changed.
+    table: (factory class name, option, kind) with kind 'num' or 'bool'"""
+    from ..core.tiny import Tiny, Sym
+    if rule_id is not None:
+        ctx.rule(rule_id)
+    by_cls = {}
+    for cname, opt, kind in table:
+        by_cls.setdefault(cname, []).append((opt, kind))
+    for cname, opts in by_cls.items():
+        q = f"autobahn.websocket.protocol.{cname}.setProtocolOptions"
+        fn = ctx.program.func(q)
+        ctx.analysed(fn)
+        params = fn.params()[1:]
+        body = [x for x in fn.node.body if not (isinstance(x, ast.Expr) and isinstance(x.value, ast.Constant))]
+        base = {p_: 20 + i for i, p_ in enumerate(params)}       # distinct current values, inside every range the setter asserts (12..125)
+        a_ = fn.node.args
+        dflt = {x.arg: None for x in a_.args}
+        for x, d_ in zip(a_.args[len(a_.args) - len(a_.defaults):], a_.defaults):
+            dflt[x.arg] = d_.value if isinstance(d_, ast.Constant) else None
+
+        def evaluate(given_opt=None, given=None, current=None):
+            env = {"self": Sym("factory"), "self.log": Sym("log")}
+            for p_ in params:
+                env[p_] = dflt.get(p_)
+                env[f"self.{p_}"] = base[p_]
+            if given_opt is not None:
+                env[given_opt] = given
+                env[f"self.{given_opt}"] = current
+            try:
+                t = Tiny(env, default_call=lambda f_, a__, k_=None: Sym(f"<{f_}>"), opaque_globals=True, model_strings=True, model_types=True,
+                         inline_self=inline_private(ctx, fn.cls))
+                r = t.run(body)
+            except AnalysisError as e:
+                raise AnalysisError(f"[{ctx.cur_rule}] {q} outside the modelled subset: {e}")
+            return r, {p_: t.env.get(f"self.{p_}", t.env["self"].attrs.get(p_, "<not set>")) for p_ in params}
+        r0, rest = evaluate()      # nothing given: what the call does anyway (an option with a non-None default is stored every time)
+        ctx.require(r0[0] != "raise", f"{q}: raises {r0[1]} when called without options")
+        for opt, kind in opts:
+            ctx.require(opt in params, f"{q}: parameter {opt} not found")
+            if kind == "bool":
+                values = [(True, False), (False, True)]           # (given, current)
+            else:
+                values = [(7, base[opt])] + [(base[o_], base[opt]) for o_ in params if o_ != opt]
+            probs = []
+            for given, current in values:
+                r, after = evaluate(opt, given, current)
+                got = after[opt]
+                others = [p_ for p_ in params if p_ != opt and after[p_] != rest[p_]]
+                if r[0] == "raise":
+                    probs.append(f"{opt}={given!r} (current {current!r}): raises {r[1]}")
+                elif not (got == given and type(got) is type(given)):
+                    probs.append(f"{opt}={given!r} while it is {current!r}" + (f" and {[o_ for o_ in params if o_ != opt and base[o_] == given][:1]} is {given!r}" if kind != 'bool' else "")
+                                 + f": the factory keeps {got!r}")
+                elif others:
+                    probs.append(f"{opt}={given!r}: also changes {others}")
+            ctx.ob(f"{cname}.setProtocolOptions({opt}=v) makes v the factory's {opt}, whatever the other options are [{len(values)} cells]", not probs,
+                   "; ".join(probs[:2]) + f": {why}", fn.loc())
 
 
 def class_consts(ctx, cls):
